@@ -58,10 +58,10 @@ func wirePool(a *aspec.ASpec) {
 		}(), Req: true}})
 	// component responses shared by several operations under different (numbered) statuses, one for defaults only
 	a.Responses = append(a.Responses,
-		aspec.NamedResponse{Name: "SharedProblem", R: &aspec.Response{Desc: "problem", Headers: []aspec.Header{{Name: "X-Next", Schema: str}}, Body: aspec.Body{K: "json", Schema: &aspec.Schema{K: "ref", To: "Bag"}}}},
+		aspec.NamedResponse{Name: "SharedProblem", R: &aspec.Response{Desc: "problem", Headers: []aspec.Header{{Name: "X-Next", Schema: str}, {Name: "X-List", Schema: aspec.Schema{K: "array", Items: &str}}}, Body: aspec.Body{K: "json", Schema: &aspec.Schema{K: "ref", To: "Bag"}}}},
 		aspec.NamedResponse{Name: "SharedEmpty", R: &aspec.Response{Desc: "empty", Headers: []aspec.Header{{Name: "x-count", Req: true, Schema: aspec.Schema{K: "int32"}}}, Body: aspec.Body{K: "none"}}},
 		aspec.NamedResponse{Name: "SharedProblemAlias", Alias: "SharedProblem"},
-		aspec.NamedResponse{Name: "SharedDefault", R: &aspec.Response{Desc: "default", Body: aspec.Body{K: "json", Schema: &aspec.Schema{K: "ref", To: "Thing"}}}},
+		aspec.NamedResponse{Name: "SharedDefault", R: &aspec.Response{Desc: "default", Headers: []aspec.Header{{Name: "X-Codes", Req: true, Schema: aspec.Schema{K: "array", Items: &i64}}}, Body: aspec.Body{K: "json", Schema: &aspec.Schema{K: "ref", To: "Thing"}}}},
 	)
 }
 
